@@ -390,6 +390,15 @@ pub fn run(ctx: &Ctx) -> i32 {
             }
             out
         }
+        "C13" => {
+            let mut out = Outcome { rule: "generated impl blocks, traits and entry_points inputs with rich surface syntax (doc comments, cfg/allow/must_use/inline/deprecated and look-alike attributes such as #[other::msg(exec)] / #[svx::error(E)] on items and methods, all visibilities, generics + where clauses, helper methods without message attributes incl. attributes on their parameters, associated consts, nested items / closures / attribute-like text in bodies, attributes on handler parameters and receivers) rendered twice from one structure: as written and with framework attributes and handler-parameter attributes left out (never through a fold); plus every annotated item of /repo/sylvia/tests and /repo/examples with an independently written attribute filter. Oracle: first item of the macro output == expectation (token-normalised by one syn parse->print); same input expanded twice in one process and once in a second process gives identical strings. Non-trivial = item with a helper method, a foreign attribute, a nested item, or a real source item.".into(), ..Default::default() };
+            out.assumptions = vec!["token-level comparison: whitespace and comment formatting are not part of the comparison (doc comments are, as #[doc] attributes)".into(), "surface items are not type-checked (engine E1 only expands)".into()];
+            match crate::e1::expander_exe() {
+                Ok(exe) => crate::c13::run(ctx, &exe, &mut out),
+                Err(e) => out.inconclusive = Some(e),
+            }
+            out
+        }
         "C15" => e1_tape(ctx, "generics", if ctx.quick() { 2000 } else { 40000 }, crate::e1props::c15a_case,
             "(a) generic fam_msg programs (1..3 type parameters; interfaces with 0..2 associated types); parameters assigned to handler arguments directly, nested (Vec<Option<T>>, (T,u32), Box<T>..), only in a query response, or nowhere; optional bound relating two parameters; oracle from the model: for every generated message type the parameter list equals (as a duplicate-free set) the parameters used by the kind's handlers, no bound on its inherent impl mentions another parameter, struct messages carry exactly the surviving predicates, ContractApi aliases name the same lists; same for interface message types over associated types. Non-trivial = a parameter used only nested / only in a response / unused by some kind, or a two-parameter bound.",
             &["token-level check on in-process expansions (engine E1); compiled generic programs are exercised by C01/C02 (fam_msg has generic programs)", A_DOMAIN, "parameter order inside a generated type is not judged (the statement says `each once`)"]),
